@@ -435,7 +435,11 @@ class LazyEvaluatedKernelTensor(LinearOperator):
         else:
             # LinearOperator.__getitem__ turns an int i in a matrix dimension into slice(i, i + 1), which is empty for
             # i = -1: make negative ints in the last two dimensions non-negative first
-            index = list(index)
+            # (0-dim integer tensors are the ints they stand for)
+            index = [
+                i.item() if torch.is_tensor(i) and i.dim() == 0 and not i.dtype.is_floating_point and i.dtype != torch.bool else i
+                for i in index
+            ]
             ellipsis_locs = [loc for loc, item in enumerate(index) if item is Ellipsis]
             if len(ellipsis_locs) == 1:
                 loc = ellipsis_locs[0]
